@@ -143,12 +143,10 @@ class Event(JSONSerializable):
         secret attributes filtered"""
         res = {}
         for k, v in objattrs.items():
-            if type(v) is dict:
-                res[k] = Event.objattrsToString(v, secretattrs)
-                continue
-
             if k in secretattrs:
                 res[k] = f"<SECRET_VALUE({type(v)})>"
+            elif type(v) is dict:
+                res[k] = Event.objattrsToString(v, secretattrs)
             elif type(v) is bytes:
                 res[k] = f"<BINARY_DATA({len(v)})>"
             elif (
